@@ -32,6 +32,8 @@ pub fn braille_mathml(mathml: Element, nav_node_id: &str) -> Result<(String, usi
         // debug!("braille_mathml: braille string: {}", &braille_string);
         let braille_string = braille_string.replace(' ', "");
         let pref_manager = rules_with_context.get_rules().pref_manager.borrow();
+        #[cfg(mathcat_verif)]
+        let verif_raw_braille = braille_string.clone();
         let highlight_style = pref_manager.pref_to_string("BrailleNavHighlight");
         let braille_code = pref_manager.pref_to_string("BrailleCode");
         let braille = match braille_code.as_str() {
@@ -45,6 +47,9 @@ pub fn braille_mathml(mathml: Element, nav_node_id: &str) -> Result<(String, usi
             "ASCIIMath" => ASCIIMath_cleanup(pref_manager, braille_string),
             _ => braille_string.trim_matches('⠀').to_string(),    // probably needs cleanup if someone has another code, but this will have to get added by hand
         };
+        #[cfg(mathcat_verif)]
+        crate::verif::emit("braille_cleanup", &[("code", crate::verif::json_str(&braille_code)),
+                ("raw", crate::verif::json_str(&verif_raw_braille)), ("cleaned", crate::verif::json_str(&braille))]);
 
         return Ok(
             if highlight_style != "Off" {
